@@ -14,8 +14,11 @@
      (C07_ordered_is_free), decision-DNNF results, smoothed diagrams.  [vars_in p w]: every
      variable tested has an entry in the map (var_weight panics otherwise).
    * P is never assumed prime (U32_TINY = 101 * 9901 is not): ring laws only (C13).
-   * SDD pointers are outside the Coq model: their hashes are tied to the defining sum by the
-     correspondence/oracle only.
+   * SDD pointers (second half of this file, theorems C11_sdd_...): both hashes of an SddPtr are modelled
+     (Model/SddSemHash.v) -- [sdd_hash_m] = DDNNFPtr::semantic_hash = the C07S fold in
+     FiniteField<P>, [sdd_cached_hash] = SddPtr::cached_semantic_hash with the per-node caches --
+     and proved equal to the defining sum for every SDD satisfying the builder invariant
+     [under t 0 p] (C03: every result of the compressing / non-compressing SDD builder).
    * The unconditional sentence of the property ("over the 64-bit field the returned diagrams
      denote the correct function") is NOT a theorem and cannot be one (2^(2^n) functions, fewer
      than 2^64 hash values): it is decided by exploration in the harness.  What is proved is
@@ -213,8 +216,8 @@ Proof.
 Qed.
 Print Assumptions C11_semantic_correct_if_injective_fn.
 
-(* why SDD decision nodes hash to the defining sum too (function level; SddPtr itself is tied to
-   the defining sum by the correspondence only): for pairwise exclusive primes, and primes / subs
+(* why SDD decision nodes hash to the defining sum too (function level; the statements about
+   SddPtr itself are the C11_sdd_... theorems at the end of this file): for pairwise exclusive primes, and primes / subs
    on disjoint variables, the defining sum of  \/_i prime_i /\ sub_i  is
    sum_i H(prime_i) * H(sub_i)  -- what SddOr::semantic_hash and SddAnd::semantic_hash compute *)
 Theorem C11_sdd_node_hash_fn : forall (P : N) (w : wmap) (vars : list var)
@@ -261,4 +264,262 @@ Proof.
   split; [intros v Hv; simpl in Hv; destruct Hv as [<-|[<-|[]]]; simpl; lia|].
   split; [intros a; simpl; destruct (a 0), (a 1); reflexivity|].
   split; [discriminate|]. split; vm_compute; reflexivity.
+Qed.
+
+(* ===================================================================================== *)
+(* SDD POINTERS.  Model: Model/SddSemHash.v; proofs: Proofs/SddSemHash.v, derived from C07S
+   (C07S_sdd_wmc_correct instantiated in the ring Z/P as a type).
+   * [sdd_hash_m m P w p : option N] is DDNNFPtr::semantic_hash on the SddPtr whose unfolding is
+     [p] -- literally unsmoothed_wmc in FiniteField<P>, i.e. the fold of Model/SddWmc.v with the
+     finite-field operations as coded; [szhash P w p] is that fold in integer arithmetic mod P.
+   * [sdd_cached_hash m P w p s] is SddPtr::cached_semantic_hash (sdd.rs:64, binary_sdd.rs:66,
+     sdd_or.rs:45/212): the dedicated recursion of the semantic SDD builder with one cache field
+     per node ([s]: finite map node -> stored u128), complemented pointer = negate() of the
+     regular one, an SddOr = FiniteField::new of the RAW u128 sum of the element products.
+   * [under t 0 p] is the builder invariant (Proofs/SddInv.v) that C03 proves of every result of
+     the SDD builder in both compression modes; [sdd_vars_in p w]: every label has an entry in
+     the map; [sdd_width_ok P p]: (largest number of elements of a reachable SddOr) * P <= 2^128,
+     the guard under which the raw sum cannot overflow (for U64_LARGEST: up to 2^64 elements). *)
+From RsddV Require Import Model.SddVtree Model.SddOps Model.SddWmc Model.SddSemHash.
+From RsddV Require Import Proofs.SddBase Proofs.SddInv Proofs.SddProg Proofs.SddWmcLink Proofs.SddScratch Proofs.SddSemHash.
+
+(* the hash as coded never panics and is the C07S fold in Z/P -- EVERY unfolding, regular or
+   complemented, whose labels are in the map (no invariant needed) *)
+Theorem C11_sdd_hash_is_wmc : forall (m : mode) (P : N) (w : wmap) (p : sdd),
+  In P exported_primes -> weights_ok P w = true -> sdd_vars_in p w ->
+  sdd_hash_m m P w p = Some (szhash P w p) /\ szhash P w p < P.
+Proof.
+  intros m P w p HP HW V. destruct (exported_ok_range P w HP HW) as [OK WR].
+  apply (sdd_hash_is_wmc_ok m P OK w WR p V).
+Qed.
+Print Assumptions C11_sdd_hash_is_wmc.
+
+(* the exact characterisation: under the builder invariant the hash is the defining sum over the
+   models of the denoted function (the same [fhash] as for BDDs) *)
+Theorem C11_sdd_hash_is_sum : forall (m : mode) (P : N) (w : wmap) (t : vtree) (p : sdd) (vars : list var) (x : asg),
+  In P exported_primes -> weights_ok P w = true ->
+  NoDup (vleaves t) -> under t 0 p -> sdd_vars_in p w -> NoDup vars -> incl (vleaves t) vars ->
+  sdd_hash_m m P w p = Some (fhash P w vars (sden p) x) /\ fhash P w vars (sden p) x < P.
+Proof.
+  intros m P w t p vars x HP HW ND U V NDV INC. destruct (exported_ok_range P w HP HW) as [OK WR].
+  apply (sdd_hash_is_sum_ok m P OK w WR t p vars x); assumption.
+Qed.
+Print Assumptions C11_sdd_hash_is_sum.
+
+(* SDD MAIN: denotationality.  Two SDD pointers satisfying the builder invariant -- under the same
+   or different vtrees, compressed or not, regular or complemented, any sharing -- that denote
+   the same function hash equally, in every exported field, both build modes. *)
+Theorem C11_sdd_main : forall (m : mode) (P : N) (w : wmap) (t1 t2 : vtree) (p q : sdd),
+  In P exported_primes -> weights_ok P w = true ->
+  NoDup (vleaves t1) -> NoDup (vleaves t2) -> under t1 0 p -> under t2 0 q ->
+  sdd_vars_in p w -> sdd_vars_in q w ->
+  (forall a, sden p a = sden q a) ->
+  sdd_hash_m m P w p = sdd_hash_m m P w q.
+Proof.
+  intros m P w t1 t2 p q HP HW ND1 ND2 U1 U2 V1 V2 E. destruct (exported_ok_range P w HP HW) as [OK WR].
+  apply (sdd_hash_denotational_ok m P OK w WR t1 t2); assumption.
+Qed.
+Check C11_sdd_main : forall (m : mode) (P : N) (w : wmap) (t1 t2 : vtree) (p q : sdd),
+  In P exported_primes -> weights_ok P w = true ->
+  NoDup (vleaves t1) -> NoDup (vleaves t2) -> under t1 0 p -> under t2 0 q ->
+  sdd_vars_in p w -> sdd_vars_in q w ->
+  (forall a, sden p a = sden q a) ->
+  sdd_hash_m m P w p = sdd_hash_m m P w q.
+Print Assumptions C11_sdd_main.
+
+(* across representations: an SDD and a free BDD (any order, decision-DNNF result) of one function *)
+Theorem C11_sdd_bdd_hash_agree : forall (m : mode) (P : N) (w : wmap) (t : vtree) (p : sdd) (q : bdd),
+  In P exported_primes -> weights_ok P w = true ->
+  NoDup (vleaves t) -> under t 0 p -> free_bdd q -> sdd_vars_in p w -> vars_in q w ->
+  (forall a, sden p a = den q a) ->
+  sdd_hash_m m P w p = hash_m m P w q.
+Proof.
+  intros m P w t p q HP HW ND U F V1 V2 E. destruct (exported_ok_range P w HP HW) as [OK WR].
+  apply (sdd_bdd_hash_agree_ok m P OK w WR t); assumption.
+Qed.
+Print Assumptions C11_sdd_bdd_hash_agree.
+
+(* hash (neg p) = negate (hash p) = 1 - hash p.  Unlike for BDDs this needs the invariant: the fold
+   counts a complemented node as the node with all subs negated, which is the complement only
+   when the primes partition *)
+Theorem C11_sdd_hash_neg : forall (m : mode) (P : N) (w : wmap) (t : vtree) (p : sdd),
+  In P exported_primes -> weights_ok P w = true ->
+  NoDup (vleaves t) -> under t 0 p -> sdd_vars_in p w ->
+  sdd_hash_m m P w (sneg p) = hneg m P (sdd_hash_m m P w p) /\
+  sdd_hash_m m P w (sneg p) = Some ((1 + P - szhash P w p) mod P).
+Proof.
+  intros m P w t p HP HW ND U V. destruct (exported_ok_range P w HP HW) as [OK WR].
+  apply (sdd_hash_neg_ok m P OK w WR t p ND U V).
+Qed.
+Print Assumptions C11_sdd_hash_neg.
+
+(* the dedicated recursion SddPtr::cached_semantic_hash: for a FIXED P and map, from any cache
+   state that is sound for them, the cached hash of a pointer -- regular or complemented -- equals
+   DDNNFPtr::semantic_hash of it, the cache stays sound and loses nothing *)
+Definition sdd_cache_sound_for (P : N) (w : wmap) (s : shcache) : Prop :=
+  forall k h, shc_get k s = Some h -> h = szhash P w k.
+
+Theorem C11_sdd_cached_hash_eq : forall (m : mode) (P : N) (w : wmap) (t : vtree) (p : sdd) (s : shcache),
+  In P exported_primes -> weights_ok P w = true ->
+  NoDup (vleaves t) -> under t 0 p -> sdd_vars_in p w -> sdd_width_ok P p -> sdd_cache_sound_for P w s ->
+  exists r s', sdd_cached_hash m P w p s = Some (r, s') /\ sdd_hash_m m P w p = Some r /\
+               sdd_cache_sound_for P w s' /\ (forall k h, shc_get k s = Some h -> shc_get k s' = Some h).
+Proof.
+  intros m P w t p s HP HW ND U V W CS. destruct (exported_ok_range P w HP HW) as [OK WR].
+  apply (sdd_cached_hash_eq_ok m P OK w WR t p s); assumption.
+Qed.
+Print Assumptions C11_sdd_cached_hash_eq.
+
+(* any sequence of cached queries on pointers of one builder sharing nodes, from fresh nodes *)
+Theorem C11_sdd_cached_hashes_eq : forall (m : mode) (P : N) (w : wmap) (t : vtree) (ps : list sdd),
+  In P exported_primes -> weights_ok P w = true -> NoDup (vleaves t) ->
+  (forall p, In p ps -> under t 0 p /\ sdd_vars_in p w /\ sdd_width_ok P p) ->
+  exists s', sdd_cached_hashes m P w ps [] = Some (map (szhash P w) ps, s') /\
+             (forall p, In p ps -> sdd_hash_m m P w p = Some (szhash P w p)).
+Proof.
+  intros m P w t ps HP HW ND H. destruct (exported_ok_range P w HP HW) as [OK WR].
+  apply (sdd_cached_hashes_eq_ok m P OK w WR t ps ND H).
+Qed.
+Print Assumptions C11_sdd_cached_hashes_eq.
+
+(* the public DDNNFPtr::semantic_hash runs through the per-node scratch slots (C07S): from empty
+   slots it answers what the plain recursion answers and leaves the slots empty *)
+Theorem C11_sdd_hash_public : forall (m : mode) (P : N) (w : wmap) (p : sdd) (s : sscratch hv),
+  sall_empty hv s ->
+  fst (sdd_hash_public m P w p s) = sdd_hash_m m P w p /\ sall_empty hv (snd (sdd_hash_public m P w p s)).
+Proof. intros m P w p s E. apply (sdd_fold_public_pure hv); exact E. Qed.
+Print Assumptions C11_sdd_hash_public.
+
+(* hash-identification never splits equal functions: by semantic_hash (any two vtrees) ... *)
+Theorem C11_sdd_semantic_never_splits : forall (m : mode) (P : N) (w : wmap) (t1 t2 : vtree) (p q : sdd),
+  In P exported_primes -> weights_ok P w = true ->
+  NoDup (vleaves t1) -> NoDup (vleaves t2) -> under t1 0 p -> under t2 0 q -> sdd_vars_in p w -> sdd_vars_in q w ->
+  (feq (sden p) (sden q) -> sdd_hash_m m P w p = sdd_hash_m m P w q) /\
+  (feq (sden p) (fnot (sden q)) -> sdd_hash_m m P w p = hneg m P (sdd_hash_m m P w q)) /\
+  (feq (sden p) (sden q) \/ feq (sden p) (fnot (sden q)) ->
+   hash_match m P (sdd_hash_m m P w p) (sdd_hash_m m P w q) = true).
+Proof.
+  intros m P w t1 t2 p q HP HW ND1 ND2 U1 U2 V1 V2. destruct (exported_ok_range P w HP HW) as [OK WR].
+  apply (sdd_semantic_never_splits m P OK w WR t1 t2); assumption.
+Qed.
+Print Assumptions C11_sdd_semantic_never_splits.
+
+(* ... and by SemanticSddBuilder::sdd_eq (h1 == h2 on the cached hashes of two pointers of one
+   builder, evaluated one after the other on the shared node caches): equal functions compare
+   equal, a negated function is found under negate() *)
+Theorem C11_sdd_eq_never_splits : forall (m : mode) (P : N) (w : wmap) (t : vtree) (p q : sdd) (s : shcache),
+  In P exported_primes -> weights_ok P w = true -> NoDup (vleaves t) ->
+  under t 0 p -> under t 0 q -> sdd_vars_in p w -> sdd_vars_in q w -> sdd_width_ok P p -> sdd_width_ok P q ->
+  sdd_cache_sound_for P w s ->
+  exists h1 s1 h2 s2, sdd_cached_hash m P w p s = Some (h1, s1) /\ sdd_cached_hash m P w q s1 = Some (h2, s2) /\
+    ((forall a, sden p a = sden q a) -> h1 = h2) /\
+    ((forall a, sden p a = negb (sden q a)) -> ff_negate m P h2 = Some h1).
+Proof.
+  intros m P w t p q s HP HW ND Up Uq Vp Vq Wp Wq CS. destruct (exported_ok_range P w HP HW) as [OK WR].
+  apply (sdd_eq_never_splits_ok m P OK w WR t p q s); assumption.
+Qed.
+Print Assumptions C11_sdd_eq_never_splits.
+
+(* CONDITIONAL, as for BDDs: on a negation-closed set of SDD pointers of one vtree on which the
+   hash is injective, hash-or-negated-hash equality decides equal-or-negated function *)
+Theorem C11_sdd_semantic_correct_if_injective : forall (m : mode) (P : N) (w : wmap) (t : vtree) (D : sdd -> Prop),
+  In P exported_primes -> weights_ok P w = true -> NoDup (vleaves t) ->
+  (forall p, D p -> under t 0 p /\ sdd_vars_in p w) ->
+  (forall p, D p -> D (sneg p)) ->
+  (forall p q, D p -> D q -> sdd_hash_m m P w p = sdd_hash_m m P w q -> feq (sden p) (sden q)) ->
+  forall p q, D p -> D q ->
+  (sdd_hash_m m P w p = sdd_hash_m m P w q <-> feq (sden p) (sden q)) /\
+  (sdd_hash_m m P w p = hneg m P (sdd_hash_m m P w q) <-> feq (sden p) (fnot (sden q))) /\
+  (hash_match m P (sdd_hash_m m P w p) (sdd_hash_m m P w q) = true <->
+   (feq (sden p) (sden q) \/ feq (sden p) (fnot (sden q)))).
+Proof.
+  intros m P w t D HP HW ND. destruct (exported_ok_range P w HP HW) as [OK WR].
+  apply (sdd_semantic_correct_if_injective m P OK w WR t D ND).
+Qed.
+Print Assumptions C11_sdd_semantic_correct_if_injective.
+
+(* the link to the builder (C03): every pool entry of every operation program on the SDD builder
+   model, compression on or off, whose vtree's variables are in the map, hashes to the defining
+   sum of its function, its negation to 1 - that, and the cached recursion from fresh nodes
+   returns the same value -- exactly the model run the correspondence drives *)
+Theorem C11_sdd_run_prog_hashed : forall (m : mode) (P : N) (w : wmap) (t : vtree) (compress_on : bool) (ops : list sop),
+  In P exported_primes -> weights_ok P w = true ->
+  NoDup (vleaves t) -> Forall (op_wf t) ops -> (forall v, In v (vleaves t) -> (N.to_nat v < length w)%nat) ->
+  exists pool, run_prog t compress_on ops = Ok pool /\
+    forall p, In p pool -> forall vars x, NoDup vars -> incl (vleaves t) vars ->
+      sdd_hash_m m P w p = Some (fhash P w vars (sden p) x) /\
+      sdd_hash_m m P w (sneg p) = hneg m P (sdd_hash_m m P w p) /\
+      (sdd_width_ok P p -> exists s', sdd_cached_hash m P w p [] = Some (fhash P w vars (sden p) x, s')).
+Proof.
+  intros m P w t cm ops HP HW ND Hwf Hw. destruct (exported_ok_range P w HP HW) as [OK WR].
+  destruct (run_prog_under t cm ops ND Hwf) as (pool & E & HU). exists pool. split; [exact E|].
+  intros p Hin vars x NDV INC. rewrite Forall_forall in HU. specialize (HU p Hin).
+  pose proof (under_vars_in t p w HU Hw) as V.
+  destruct (sdd_hash_is_sum_ok m P OK w WR t p vars x ND HU V NDV INC) as [ES _].
+  split; [exact ES|]. split; [apply (sdd_hash_neg_ok m P OK w WR t p ND HU V)|].
+  intros W. destruct (sdd_cached_hash_eq_ok m P OK w WR t p [] ND HU V W (scache_sound_nil P w)) as (r & s' & EC & EH & _).
+  exists s'. rewrite EC. rewrite ES in EH. injection EH as <-. reflexivity.
+Qed.
+Print Assumptions C11_sdd_run_prog_hashed.
+
+(* non-vacuity: the program x0 \/ !x3, /\ x2, xor x1 on the SDD builder model under a balanced and
+   under a right-linear vtree over four variables, in the 64-bit field with admissible weights.
+   Under the balanced vtree the result is a COMPLEMENTED general decision node with three elements
+   whose second element has a complemented prime and a complemented sub; under the right-linear
+   vtree it is a chain of BinarySDDs.  All hypotheses of C11_sdd_main / _hash_neg / _cached_hash_eq
+   hold, the two structurally different pointers denote one function and hash to the same
+   non-trivial residue, through the fold and through the cached recursion; the negation hashes to
+   1 - that *)
+Example C11_sdd_nonvacuous :
+  let P := prime_U64_LARGEST in
+  let w := [(P - 12345678901234567 + 1, 12345678901234567); (P - 98765432109876543 + 1, 98765432109876543);
+            (P - 5 + 1, 5); (P - 18446744073709551590 + 1, 18446744073709551590)] in
+  let t1 := VNode (VNode (VLeaf 2) (VLeaf 0)) (VNode (VLeaf 3) (VLeaf 1)) in
+  let t2 := VNode (VLeaf 0) (VNode (VLeaf 1) (VNode (VLeaf 2) (VLeaf 3))) in
+  let ops := [SddOps.OVar 0 true; SddOps.OVar 3 false; SddOps.OVar 2 true; SddOps.OVar 1 true;
+              SddOps.OOr 0 1; SddOps.OAnd 4 2; SddOps.OXor 5 3] in
+  In P exported_primes /\ weights_ok P w = true /\ NoDup (vleaves t1) /\ NoDup (vleaves t2) /\
+  exists pool1 pool2 p q, run_prog t1 true ops = Ok pool1 /\ run_prog t2 true ops = Ok pool2 /\
+    nth 6 pool1 SF = p /\ nth 6 pool2 SF = q /\
+    (exists els pr sb, p = SOr true 3 els /\ length els = 3%nat /\ nth 1 els (SF, SF) = (pr, sb) /\
+                       s_is_neg pr = true /\ s_is_neg sb = true) /\
+    under t1 0 p /\ under t2 0 q /\ sdd_vars_in p w /\ sdd_vars_in q w /\ sdd_width_ok P p /\ sdd_width_ok P q /\
+    (forall a, sden p a = sden q a) /\ p <> q /\
+    sdd_hash_m Checked P w p = Some 5756598406845984335 /\
+    sdd_hash_m Checked P w q = Some 5756598406845984335 /\
+    option_map fst (sdd_cached_hash Checked P w p []) = Some 5756598406845984335 /\
+    option_map fst (sdd_cached_hash Checked P w (sneg p) []) = Some 12690145666863567257 /\
+    sdd_hash_m Checked P w (sneg p) = Some 12690145666863567257.
+Proof.
+  cbv zeta.
+  assert (ND1 : NoDup (vleaves (VNode (VNode (VLeaf 2) (VLeaf 0)) (VNode (VLeaf 3) (VLeaf 1))))).
+  { simpl; repeat (apply NoDup_cons; [simpl; intuition discriminate|]); apply NoDup_nil. }
+  assert (ND2 : NoDup (vleaves (VNode (VLeaf 0) (VNode (VLeaf 1) (VNode (VLeaf 2) (VLeaf 3)))))).
+  { simpl; repeat (apply NoDup_cons; [simpl; intuition discriminate|]); apply NoDup_nil. }
+  assert (WF1 : Forall (op_wf (VNode (VNode (VLeaf 2) (VLeaf 0)) (VNode (VLeaf 3) (VLeaf 1))))
+                 [SddOps.OVar 0 true; SddOps.OVar 3 false; SddOps.OVar 2 true; SddOps.OVar 1 true;
+                  SddOps.OOr 0 1; SddOps.OAnd 4 2; SddOps.OXor 5 3]).
+  { repeat (apply Forall_cons; [simpl; auto 10|]); apply Forall_nil. }
+  assert (WF2 : Forall (op_wf (VNode (VLeaf 0) (VNode (VLeaf 1) (VNode (VLeaf 2) (VLeaf 3)))))
+                 [SddOps.OVar 0 true; SddOps.OVar 3 false; SddOps.OVar 2 true; SddOps.OVar 1 true;
+                  SddOps.OOr 0 1; SddOps.OAnd 4 2; SddOps.OXor 5 3]).
+  { repeat (apply Forall_cons; [simpl; auto 10|]); apply Forall_nil. }
+  split; [vm_compute; tauto|]. split; [vm_compute; reflexivity|]. split; [exact ND1|]. split; [exact ND2|].
+  destruct (run_prog_under _ true _ ND1 WF1) as (pool1 & E1 & HU1).
+  destruct (run_prog_under _ true _ ND2 WF2) as (pool2 & E2 & HU2).
+  exists pool1, pool2, (nth 6 pool1 SF), (nth 6 pool2 SF).
+  split; [exact E1|]. split; [exact E2|]. split; [reflexivity|]. split; [reflexivity|].
+  assert (U1 : under (VNode (VNode (VLeaf 2) (VLeaf 0)) (VNode (VLeaf 3) (VLeaf 1))) 0 (nth 6 pool1 SF)).
+  { apply Forall_nth_in; [exact HU1|]. vm_compute in E1. injection E1 as <-. simpl. lia. }
+  assert (U2 : under (VNode (VLeaf 0) (VNode (VLeaf 1) (VNode (VLeaf 2) (VLeaf 3)))) 0 (nth 6 pool2 SF)).
+  { apply Forall_nth_in; [exact HU2|]. vm_compute in E2. injection E2 as <-. simpl. lia. }
+  split; [|split; [exact U1|split; [exact U2|]]].
+  - clear - E1. vm_compute in E1. injection E1 as <-. do 3 eexists. repeat split; reflexivity.
+  - split; [apply (under_vars_in _ _ _ U1); intros v Hv; simpl in Hv; simpl; intuition (subst; simpl; lia)|].
+    split; [apply (under_vars_in _ _ _ U2); intros v Hv; simpl in Hv; simpl; intuition (subst; simpl; lia)|].
+    clear HU1 HU2 U1 U2. vm_compute in E1. injection E1 as <-. vm_compute in E2. injection E2 as <-.
+    split; [unfold sdd_width_ok; vm_compute; discriminate|]. split; [unfold sdd_width_ok; vm_compute; discriminate|].
+    split; [intros a; cbn; destruct (a 0), (a 1), (a 2), (a 3); reflexivity|].
+    split; [cbn; discriminate|].
+    repeat split; vm_compute; reflexivity.
 Qed.
